@@ -795,6 +795,9 @@ impl Ctx {
                 let _: i64 = c.query_row("SELECT count(*) FROM clients", [], |r| r.get(0)).unwrap_or(0);
                 self.held = Some(c);
             }
+            ["unhold"] => {
+                self.held = None;
+            }
             ["crashmid", c] => {
                 // die inside a transaction that has written but not committed
                 use std::io::Write;
@@ -927,7 +930,7 @@ impl Ctx {
 /// `harness lib <inmem|sqlite> <seed>`: symbolic cases on stdin, OP/R lines on stdout
 pub fn main_lib(backend: Backend, seed: u64) {
     // panics inside the implementation are caught and reported as `panic` responses
-    std::panic::set_hook(Box::new(|_| {}));
+    crate::store::install_panic_recorder();
     let stdin = std::io::stdin();
     let stdout = std::io::stdout();
     let mut w = std::io::BufWriter::new(stdout.lock());
@@ -957,7 +960,10 @@ pub fn main_lib(backend: Backend, seed: u64) {
                 if matches!(other[0], "abort" | "crashmid") {
                     w.flush().unwrap();
                 }
-                c.exec(other);
+                let what = other.join(" ");
+                let mut extra: Vec<String> = vec![];
+                crate::store::guarded(&mut extra, &what, || c.exec(other));
+                c.out.append(&mut extra);
                 // flush what the case produced so far (keeps memory flat for long cases)
                 for l in c.out.drain(..) {
                     writeln!(w, "{l}").unwrap();
